@@ -5,8 +5,10 @@ import (
 	"bytes"
 	"fmt"
 	"math"
+	"sort"
 	"strings"
 	"testing"
+	"verif/harness/ref/refsfnt"
 
 	"pgregory.net/rapid"
 
@@ -69,6 +71,26 @@ func normalise(f *sfnt.Font) *sfnt.Font {
 			}
 		}
 		e.Outlines = &o2
+	}
+	if o, ok := f.Outlines.(*cff.Outlines); ok {
+		// advance widths are stored in hmtx, a table of 16-bit integers
+		// (the writer drops the fraction)
+		var glyphs []*cff.Glyph
+		for i, g := range o.Glyphs {
+			if w := float64(funit.Int16(g.Width)); w != g.Width {
+				if glyphs == nil {
+					glyphs = append(glyphs, o.Glyphs...)
+				}
+				g2 := *g
+				g2.Width = w
+				glyphs[i] = &g2
+			}
+		}
+		if glyphs != nil {
+			o2 := *o
+			o2.Glyphs = glyphs
+			e.Outlines = &o2
+		}
 	}
 	if f.XHeight <= 0 {
 		e.XHeight = 0
@@ -247,7 +269,7 @@ func checkFixedPointNF(t interface{ Fatalf(string, ...any) }, b []byte, what str
 		t.Fatalf("%s: second Write failed: err=%v panic=%v", what, err, pn)
 	}
 	if !bytes.Equal(b1, b2) {
-		t.Fatalf("%s: Write(Read(Write(Read(b)))) != Write(Read(b)): first difference at byte %d (lengths %d, %d)", what, firstDiff(b1, b2), len(b1), len(b2))
+		t.Fatalf("%s: Write(Read(Write(Read(b)))) != Write(Read(b)): first difference at byte %d (lengths %d, %d)%s", what, firstDiff(b1, b2), len(b1), len(b2), differingTables(b1, b2))
 	}
 	if normalForm {
 		f3, err, pn := read(append([]byte(nil), b2...))
@@ -375,4 +397,31 @@ func TestC01FixedPoint(t *testing.T) {
 			return fmt.Sprintf("mutant (%d bytes) of %s", len(m), c)
 		}, append(c.Labels, lab)...)
 	})
+}
+
+// differingTables names the tables in which two files differ (for messages).
+func differingTables(b1, b2 []byte) string {
+	f1, err1 := refsfnt.Parse(b1)
+	f2, err2 := refsfnt.Parse(b2)
+	if err1 != nil || err2 != nil {
+		return ""
+	}
+	t1, t2 := f1.Tables(), f2.Tables()
+	var names []string
+	for tag, d := range t1 {
+		d2, ok := t2[tag]
+		switch {
+		case !ok:
+			names = append(names, tag+" (only in the first)")
+		case !bytes.Equal(d, d2):
+			names = append(names, fmt.Sprintf("%s (byte %d)", tag, firstDiff(d, d2)))
+		}
+	}
+	for tag := range t2 {
+		if _, ok := t1[tag]; !ok {
+			names = append(names, tag+" (only in the second)")
+		}
+	}
+	sort.Strings(names)
+	return "; tables that differ: " + strings.Join(names, ", ")
 }
